@@ -143,17 +143,7 @@ def tmp_worktree(repo: str | Path = ".", ref: str = "HEAD") -> Iterator[Path]:
             check=False,
             env=_git_env(),
         ).returncode
-        try:
-            process = subprocess.run(
-                ["git", "-C", repo, "worktree", "add", "-b", tmp_branch, location, ref],
-                capture_output=True,
-                check=False,
-                env=_git_env(),
-            )
-            if process.returncode:
-                raise RuntimeError(f"Could not create git worktree: {process.stderr.decode()}")
-            yield Path(location)
-        finally:
+        def cleanup() -> None:
             # Nothing to clean up if the worktree was not created, for example when the reference
             # is unknown or when a branch with the temporary name already exists (it is not ours).
             if os.path.exists(location):
@@ -188,3 +178,22 @@ def tmp_worktree(repo: str | Path = ".", ref: str = "HEAD") -> Iterator[Path]:
                     check=False,
                     env=_git_env(),
                 )
+
+        try:
+            process = subprocess.run(
+                ["git", "-C", repo, "worktree", "add", "-b", tmp_branch, location, ref],
+                capture_output=True,
+                check=False,
+                env=_git_env(),
+            )
+            if process.returncode:
+                raise RuntimeError(f"Could not create git worktree: {process.stderr.decode()}")
+            yield Path(location)
+        finally:
+            try:
+                cleanup()
+            except BaseException:
+                # Interrupted while cleaning up (Ctrl-C for example): the commands above can safely
+                # be run again, so finish the job before letting the interruption through.
+                cleanup()
+                raise
